@@ -596,7 +596,10 @@ class KFoldSplits(Contract):
         # paired with the wrong blocks (e.g. counted before a shuffle) show as a gross imbalance
         for _ in range(60 if tier == "thorough" else 16):
             nb = rng.randint(12, 40)
-            occ = tuple(rng.choice([1, 1, 1, 2, 3, 8, 12, 20]) for _ in range(nb))
+            # (every other layout with EMPTY blocks between the occupied ones: block ids are not 0..G-1 then)
+            occ = tuple(rng.choice([1, 1, 1, 2, 3, 8, 12, 20] + ([0, 0, 0] if _ % 2 else [])) for _ in range(nb))
+            if sum(1 for o in occ if o) < 6:
+                continue
             X = _points_from_occupancy(occ, rng)
             for shuffle, balance in ((True, True), (False, True), (True, False)):
                 yield (X, 1.0, rng.randint(2, 5), shuffle, rng.randint(0, 99), balance), {}
